@@ -192,6 +192,8 @@ def run_check(pid, tier, seed=0, jobs=None, only=None):
     if samples and not cov['samples']:
         step = max(1, len(samples) // 4)
         cov['samples'] = _jsonable(samples[::step][:5])
+    if not cov['samples']:
+        cov['samples'] = [{'work_item': _jsonable(items[order[0]])}, {'work_item': _jsonable(items[order[-1]])}]
     cov['work_items'] = n
     cov['known_finding_cases'] = sum(c for _, c in known_hits.values())
     vac = mod.vacuity(total, tier) if hasattr(mod, 'vacuity') else None
